@@ -25,9 +25,15 @@ def corpus_cases():
 def main():
     chk = common.Check('C19')
     import locale_common as C
-    proved = chk.prove('I18n.Props.C19', generated=('locale',))
-    problems = ' '.join(chk.lean.problems)
-    driver_ok = os.path.exists(common.driver_path()) and not any('untranslatable' in s for s in chk.lean.translation.values()) \
+    proved = chk.prove('I18n.Props.C19', generated=('locale', 'linglang'), extra_targets=())
+    problems = ' '.join(p for p in chk.lean.problems if 'translator(linglang)' not in p)
+    # the tie by translation: lib/ling.py (class Language, parse_language, the code look-ups) regenerated from the current source and proved
+    # equal to the model the theorems above are about (Props/C19Tie.lean)
+    tie_ok = common.prove_tie(chk, 'I18n.Props.C19Tie', ('linglang',),
+                              'lib/ling.py regenerated from the current source (Generated/Ling.lean) is no longer proved equal to the model '
+                              '(Locale.parseLanguageE, fixCodes, removeEncoding, removeNonlinguisticModifier, isAlmostEqual, Language.str: '
+                              'generated_*_eq_model and the clause-1/clause-2 corollaries)')
+    driver_ok = os.path.exists(common.driver_path()) and not any('untranslatable' in s for k, s in chk.lean.translation.items() if k != 'linglang') \
         and 'Driver' not in problems and 'I18n.Model' not in problems and 'I18n.Spec' not in problems and 'I18n.Generated' not in problems
     rng = chk.rng
     T = C.gen_tables()
@@ -55,10 +61,14 @@ def main():
 
     # ---------------- correspondence: real code vs Lean model
     if driver_ok:
+        GENERATED_OPS = {'parse': 'gparse', 'fix': 'gfix', 'lookup': 'glookup', 'territory': 'gterritory', 'almost': 'galmost', 'cli': 'gcli'}
         def stream(name, op, inputs, impl, to_arg=C.hexs):
             lines = [f'locale {op} {to_arg(x)}' for x in inputs]
             outs = [impl(x) for x in inputs]
             dis, _ = chk.stream(name, lines, outs)
+            if tie_ok and op in GENERATED_OPS:
+                # the same inputs through the definitions regenerated from lib/ling.py (Generated/Ling.lean)
+                chk.stream(name + '-generated', [f'locale {GENERATED_OPS[op]} {to_arg(x)}' for x in inputs], outs)
             return [inputs[i] for i in dis], outs
         dis_parse, outs = stream('locale-parse', 'parse', names_in, C.impl_parse)
         chk.note_cases({o for o in outs if o.startswith('ok')})
@@ -165,6 +175,9 @@ def main():
              'non-trivial = distinct canonical outcome',
         trusted=['Lean 4.33 kernel', 'axioms: propext, Classical.choice, Quot.sound only',
                  'tools/translate/locale2lean.py (dumps lib.ling tables as loaded and converts the re._parser tree of _language_regexp to an Re term)',
+                 'tie by translation + proof: tools/translate/linglang2lean.py (over tools/translate/pytr core + objfn) is trusted; the kit Model/LingLangPy.lean is shared by both '
+                 'sides of the equalities (the scanner standing for _language_regexp.match, str.upper on ASCII, the dumped tables); class Language, parse_language and the '
+                 'code look-ups regenerated from the current lib/ling.py are PROVED equal to the model (Props/C19Tie.lean) and run against CPython in the *-generated streams',
                  'Spec.LocaleRe.Matches as the meaning of pattern.match for this look-around-free fragment',
                  '_munch_language_name is a parameter of the model; the harness computes it with str.split/lower and unicodedata directly',
                  'the correspondence harness (tools/checks/locale_common.py, Driver/Locale.lean)'],
@@ -187,7 +200,12 @@ EXPLANATION = (
     'Spec.LocaleRe.Matches is what CPython re decides - all tied by the correspondence streams; header parsing into ctx.metadata belongs to C15 '
     '(covered here by the e2e-cli stream on real files). FINDINGS (both fixed in /repo, re-found by this check on the unfixed tree): '
     "parse_language('pl\\n') accepted (6815428); '/None/' in the path dropped the base-name language when the Language field had unknown codes (06a1780). "
-    "Found by C01: AssertionError for base names '.po', '..po' under --file-type po (d16b49e); the model follows the fix.")
+    "Found by C01: AssertionError for base names '.po', '..po' under --file-type po (d16b49e); the model follows the fix. "
+    'TIE BY TRANSLATION (Props/C19Tie.lean): Generated/Ling.lean is rewritten from the current lib/ling.py on every run (class Language: __init__, clone, __eq__, __ne__, is_almost_equal, '
+    'fix_codes, remove_principal_territory_code, remove_encoding, remove_nonlinguistic_modifier, __str__; parse_language; the two code look-ups) and proved equal to the model for all inputs '
+    '(generated_*_eq_model), with clauses 1 and 2 restated about the regenerated definitions (*_generated); is_almost_equal goes through clone() = the constructor, so its equality with '
+    'isAlmostEqual is on objects with an upper-cased encoding (enc_upper_invariant: everything the code constructs); get_language_for_name, _munch_language_name, the loader, the -l handling and '
+    'check_language remain correspondence-only.')
 
 if __name__ == '__main__':
     common.main_wrapper(main)
